@@ -112,7 +112,7 @@ def rand_cases(rng):
         out += crit_cases(rng, xs)
         words = [rng.choice(['apple', 'apricot', 'banana', 'ab', 'a', 'b', 'cab']) for _ in range(n)]
         tr = arr([enc(w) for w in words])
-        for pat in ('a*', '*a', '?b', 'b*a*', 'apple', 'zz*', '*'):
+        for pat in ('a*', '*a', '?b', 'b*a*', 'apple', 'zz*', '*', 'a?*', '?b*', '?*', 'a?p*', '*?', 'a??*', '?', '??*b'):
             out.append({'f': 'COUNTIF', 'args': [tr, enc(pat)]})
             out.append({'f': 'SUMIFS', 'args': [arr(xs), tr, enc(pat)]})
             out.append({'f': 'MAXIFS', 'args': [arr(xs), tr, enc(pat)]})
@@ -151,6 +151,24 @@ def relation_obs(lib, rng, n):
         env2['vars'] = {'ps': enc(ps), 'vn': enc(len(ps)), 'zero': enc(0)}
         g = F.binop('/', F.call('POWER', F.call('GEOMEAN', V('ps')), V('vn')), F.call('PRODUCT', V('ps')))
         out.append((F.binop('+', g, V('zero')), env2, 1))
+        # long lists of large (or tiny) values: the product leaves the range of a float, the mean does not -
+        # n * LN(GEOMEAN) = sum of the logarithms (LN: C16)
+        m = rng.randint(15, 40)
+        big = [rng.choice([rng.randint(10 ** 7, 10 ** 16), rng.uniform(1e8, 1e17)]) if rng.random() < 0.7 else rng.uniform(1e-12, 1e-7)
+               for _ in range(m)]
+        if rng.random() < 0.5:
+            big = [rng.uniform(1e-14, 1e-8) for _ in range(m)]
+        env4 = F.empty_env()
+        env4['vars'] = {'ps': {'t': 'arr', 'a': [enc(x) if isinstance(x, int) else {'t': 'flt', 'r': repr(x)} for x in big]},
+                        'vn': enc(m), 'zero': enc(0)}
+        sumln = None
+        for i, x in enumerate(big):
+            qn = 'q_' + chr(97 + i // 26) + chr(97 + i % 26)        # (not cell-shaped)
+            env4['vars'][qn] = enc(x) if isinstance(x, int) else {'t': 'flt', 'r': repr(x)}
+            t = F.call('LN', V(qn))
+            sumln = t if sumln is None else F.binop('+', sumln, t)
+        rel = F.binop('/', F.binop('*', F.call('LN', F.call('GEOMEAN', V('ps'))), V('vn')), F.paren(sumln))
+        out.append((F.binop('+', rel, V('zero')), env4, 1))
     return out
 
 
